@@ -78,7 +78,7 @@ TRUSTED = [
     "RecordingGenerator (python subclass of numpy.random.Generator sharing the seeded bit generator) does not change the stream",
 ]
 
-SRC = "/repo/src/batchie/"
+SRC = os.path.join(os.environ.get("VERIF_REPO", "/repo"), "src", "batchie") + "/"   # the tree under test
 logging.getLogger("batchie").setLevel(logging.CRITICAL)
 
 # ------------------------------------------------------------------------------------------------ trapping
@@ -670,6 +670,52 @@ def _refine(sig, traps_glob, traps_unseeded):
     return sig
 
 
+# ---- the hash-seed aspect: the same operation in two FRESH interpreters that differ only in PYTHONHASHSEED.
+# Iteration over a set / dict of strings, id()- or hash()-based ordering are hidden state a single process cannot show.
+HASH_SEEDS = ("101", "202")
+_HASH_FUT = {}
+
+
+def _hash_run(core):
+    import subprocess
+    env = dict(os.environ)
+    outs = []
+    procs = []
+    for hs in HASH_SEEDS:
+        env2 = dict(env, PYTHONHASHSEED=hs)
+        procs.append(subprocess.Popen([sys.executable, "-W", "ignore", os.path.join(os.path.dirname(os.path.abspath(__file__)), "c18_worker.py")],
+                                      stdin=subprocess.PIPE, stdout=subprocess.PIPE, stderr=subprocess.PIPE, env=env2, text=True))
+    for pr in procs:
+        try:
+            so, se = pr.communicate(json.dumps(core), timeout=300)
+        except subprocess.TimeoutExpired:
+            pr.kill()
+            so, se = "", "timeout"
+        line = [l for l in so.splitlines() if l.startswith("OUT:")]
+        outs.append(line[0][4:] if line else "worker failed: " + se[-300:])
+    return outs
+
+
+def prefetch_hash(descs):
+    """start the subprocess pairs of all hash-seed cases of this run in the background (8 pairs at a time)"""
+    from concurrent.futures import ThreadPoolExecutor
+    todo = [core_of(d) for d in descs if d.get("aspect") == "hash-seed"]
+    if not todo:
+        return
+    ex = ThreadPoolExecutor(max_workers=8)
+    for core in todo:
+        key = json.dumps(core, sort_keys=True)
+        if key not in _HASH_FUT:
+            _HASH_FUT[key] = ex.submit(_hash_run, core)
+    ex.shutdown(wait=False)
+
+
+def hash_outputs(core):
+    key = json.dumps(core, sort_keys=True)
+    fut = _HASH_FUT.get(key)
+    return fut.result() if fut is not None else _hash_run(core)
+
+
 def judge(desc):
     """-> (pred, sig, features) for this aspect of the executed operation"""
     r1, r2 = executed(desc)
@@ -719,6 +765,15 @@ def judge(desc):
             pred, sig = "%s: np.random.get_state() changed by the operation (no module-level call trapped)" % op, op + ":global-state:numpy-state-perturbed"
         elif r1["py_changed"] or r2["py_changed"]:
             pred, sig = "%s: python random.getstate() changed by the operation" % op, op + ":global-state:python-random-perturbed"
+    elif a == "hash-seed":
+        o = hash_outputs(d)
+        feats.append("fresh-interpreters")
+        if any(x.startswith("worker failed") for x in o):
+            raise RuntimeError("C18 hash-seed worker failed: %r" % (o,))
+        if o[0].split(":")[0] != o[1].split(":")[0]:
+            pred = ("%s: two fresh interpreters that differ only in PYTHONHASHSEED (%s / %s), same inputs and identically seeded generator "
+                    "(seed %s), give different outputs: %s  VERSUS  %s" % (op, HASH_SEEDS[0], HASH_SEEDS[1], d.get("seed"), o[0][41:300], o[1][41:300]))
+            sig = op + ":hash-seed-dependent-output"
     elif a == "given-generator":
         if unseeded:
             sig = classify_trap(d, unseeded[0])
@@ -896,12 +951,29 @@ def _screen_spec(rng, plates="mixed", observed="some", big=False):
                 n_plates=rng.randint(2, 6), observed=observed, ctrl_frac=rng.choice([0.0, 0.0, 0.2, 0.4]))
 
 
+HASH_KINDS = {"pairwise": 3, "sparse_cover": 15, "plate_permutation": 15, "sample_segregating": 15, "smoother": 24, "random_holdout": 18,
+              "balanced_holdout": 24, "policy_filter": 15, "select_next_plate": 9, "cli_prepare": 6, "dbal_scorer": 12, "cli_select_next_plate": 9}
+
+
 def gen(rng, tier):
+    cases = list(_gen(rng, tier))
+    prefetch_hash(cases)
+    yield from cases
+
+
+def _gen(rng, tier):
     reps = 3 if tier == "quick" else 24
+    count = {}
 
     def emit(core):
         for a in ASPECTS:
             yield dict(core, aspect=a)
+        # one core in HASH_KINDS[kind] of the deterministic (non-Gibbs) kinds is also run in two fresh interpreters
+        k = core["kind"]
+        if k in HASH_KINDS and not core.get("norng"):
+            count[k] = count.get(k, 0) + 1
+            if count[k] % HASH_KINDS[k] == 1 or (k == "cli_prepare" and "PairwisePlateGenerator" in core["extra"]):
+                yield dict(core, aspect="hash-seed")
 
     for _ in range(reps):
         for i in range(5):
